@@ -74,10 +74,13 @@ pub mod env_model {
         pub fn read_to_string(p: &Path) -> (r: io::Result<String>) ensures r == fs_read(p) { unimplemented!() }
         // the golden helper may write only under UPDATE_GOLDEN, only the golden file, only `got`
         pub uninterp spec fn write_allowed(p: &Path, contents: Seq<char>) -> bool;
+        // "a write of exactly `contents` to `p` has happened": only the ensures of `write` can establish it
+        pub uninterp spec fn wrote(p: &Path, contents: Seq<char>) -> bool;
         #[verifier::external_body]
         pub fn write(p: &super::path::PathBuf, contents: &str) -> (r: io::Result<()>)
             requires write_allowed(p.as_path_spec(), contents@),
             ensures r is Ok,   // A-IO: the write itself succeeds (an I/O failure panics in `expect`, outside the property)
+                    wrote(p.as_path_spec(), contents@),
         { unimplemented!() }
     }
 }
